@@ -1,4 +1,158 @@
-From Coq Require Import ZArith List.
-From DH Require Import Base.Plan Model.HyperV Spec.HyperV.
-Theorem C17_stub : True. Proof. exact I. Qed.
-Print Assumptions C17_stub.
+(* Props/C17.v — Hyper-V VMCX/VMRS: the decoded tree equals the stored key/value tree.
+   Only statements; each is closed by [exact] of a lemma from Proofs/HyperV.v.
+
+   Reading guide.  Model.HyperV is hyperv.py (reader); Spec.HyperV is the writer's side.
+   The chain  bytes -> entries -> key tables -> linked tree  is proved link by link:
+     packed records and values     C17_fields_roundtrip, C17_value_roundtrip, C17_entry_fields
+     key table                     C17_table_walk_roundtrip (+ C17_walk_progress on arbitrary bytes)
+     tree                          C17_link_entries_roundtrip, C17_link_roundtrip (any tree, any layout, any order)
+     selection rules               C17_free_ignored, C17_active_header, C17_active_key_table
+     tie to the source             C17_layouts_and_literals (generated layouts / enums / literals)
+   and the object-table worklist of HyperVFile.__init__ (property C11, repaired code):
+                                   C11_hyperv_worklist_terminates. *)
+From Coq Require Import String.
+From Coq Require Import ZArith List Permutation.
+From DH Require Import Base.Plan Base.Layout Base.Table Model.HyperV Spec.HyperV Proofs.HyperV.
+Import ListNotations.
+Open Scope Z_scope.
+
+(* the generated struct layouts are the packed records of the format (21-byte entry header, ...),
+   and the literals of hyperv.py are the ones the format defines *)
+Theorem C17_layouts_and_literals :
+  (fhdr_widths = W_fhdr /\ rlog_widths = W_rlog /\ otab_widths = W_otab /\ oent_widths = W_oent /\
+   ktab_widths = W_ktab /\ kent_widths = W_kent /\ K.fop_widths = W_fop /\ K.fop_size_first = true) /\
+  (fhdr_size = 46 /\ otab_size = 8 /\ oent_size = 18 /\ ktab_hsize = 10 /\ kent_hsize = 21 /\
+   L.hyperv_big_endian = false) /\
+  (K.supported_version = 1024 /\ K.flags_mask = 65280 /\ K.flags_shift = 8 /\ K.type_mask = 255 /\
+   K.key_terminator = 1 /\ K.skipped_type = 1 /\ K.node_type = 9 /\ K.blob_types = [6; 7] /\
+   K.value_formats = [(3, (K.fmt_q, 8)); (4, (K.fmt_Q, 8)); (5, (K.fmt_d, 8)); (8, (K.fmt_I, 4))]).
+Proof.
+  pose proof struct_sizes as S. pose proof literals as T. pose proof fop_widths_eq as F.
+  repeat split; try reflexivity.
+Qed.
+Print Assumptions C17_layouts_and_literals.
+
+(* packed little-endian records: decoding what was encoded gives the fields back, for every
+   list of widths and every field values that fit *)
+Theorem C17_fields_roundtrip :
+  forall ws vs rest, Forall2 fits ws vs -> parse_fields ws (enc_fields ws vs ++ rest) = Some vs.
+Proof. exact parse_fields_enc. Qed.
+Print Assumptions C17_fields_roundtrip.
+
+(* every value comes back with its stored type: signed / unsigned 64-bit integers over their whole
+   range, doubles bit for bit, booleans, strings and byte arrays of any length below 2^32, stored
+   inline (with any padding) or in a separate file object *)
+Theorem C17_value_roundtrip :
+  forall f fo r v, stored_as f fo r v -> e_value f fo r = Ok v.
+Proof. exact value_roundtrip. Qed.
+Print Assumptions C17_value_roundtrip.
+
+(* key, value bytes, type and flags of a stored entry as the reader sees them *)
+Theorem C17_entry_fields :
+  forall off e, let r := rentry_of off e in
+  key_bytes r = se_key e /\ e_data_inline r = se_body e /\
+  e_typ r = se_type e mod 256 /\ e_flags r = (se_type e / 256) mod 256.
+Proof. exact entry_fields. Qed.
+Print Assumptions C17_entry_fields.
+
+(* a key table of any number of entries of any sizes is walked entry by entry, each found at its
+   offset, until the table is full or an entry header of size 0 follows *)
+Theorem C17_table_walk_roundtrip :
+  forall idx seq ck es tail size,
+  0 <= idx < 2 ^ 16 -> 0 <= seq < 2 ^ 16 -> 0 <= ck < 2 ^ 32 -> Forall sentry_ok es ->
+  ((tail = [] /\ size = 10 + total_size es) \/
+   (21 <= zlen tail /\ firstn 4 (skipn 2 tail) = [0; 0; 0; 0] /\ 10 + total_size es < size)) ->
+  parse_ktab (enc_ktable idx seq ck es tail) size
+  = Ok {| kt_index := idx; kt_seq := seq; kt_entries := place 10 es |}.
+Proof. exact table_walk_roundtrip. Qed.
+Print Assumptions C17_table_walk_roundtrip.
+
+(* on arbitrary bytes the entry walk terminates *)
+Theorem C17_walk_progress :
+  forall raw size, bytes_ok raw -> parse_ktab raw size <> Fuel.
+Proof. exact parse_ktab_progress. Qed.
+Print Assumptions C17_walk_progress.
+
+(* THE TREE.  F is any forest (any depth and fan-out) whose entries carry pairwise different
+   identities (table index, offset) — i.e. any distribution over key tables and any offsets;
+   es is ANY permutation of the entries it stores.  Linking gives the forest back (as a
+   dictionary: equal up to the order of siblings). *)
+Theorem C17_link_entries_roundtrip :
+  forall F es,
+  Permutation es (flat_forest root_id F) ->
+  NoDup (root_id :: flat_map aids F) ->
+  forest_keys_unique F ->
+  exists r, as_dict (S (length es)) es root_id = Ok r /\ tree_equiv (Node r) (Node (map erase F)).
+Proof. exact link_entries_roundtrip. Qed.
+Print Assumptions C17_link_entries_roundtrip.
+
+(* the same through the key tables: the live entries of the active tables, in table order, with
+   free entries anywhere in between *)
+Theorem C17_link_roundtrip :
+  forall ts F,
+  tables_wf ts ->
+  Permutation (live_entries ts) (flat_forest root_id F) ->
+  NoDup (root_id :: flat_map aids F) ->
+  forest_keys_unique F ->
+  exists t, link ts = Ok t /\ tree_equiv t (Node (map erase F)).
+Proof. exact link_roundtrip. Qed.
+Print Assumptions C17_link_roundtrip.
+
+(* free entries are ignored: a file decodes to what it decodes to without them *)
+Theorem C17_free_ignored :
+  forall ts t, link (strip_free ts) = Ok t -> link ts = Ok t.
+Proof. exact free_ignored. Qed.
+Print Assumptions C17_free_ignored.
+
+(* the file header with the highest sequence number is the active one *)
+Theorem C17_active_header :
+  forall h1 h2,
+  h_seq (active_header h1 h2) = Z.max (h_seq h1) (h_seq h2) /\
+  (h_seq h2 < h_seq h1 -> active_header h1 h2 = h1) /\ (h_seq h1 < h_seq h2 -> active_header h1 h2 = h2).
+Proof. exact active_header_max. Qed.
+Print Assumptions C17_active_header.
+
+(* among key tables sharing an index the one with the highest sequence number is used, in
+   whatever order the object tables list them *)
+Theorem C17_active_key_table :
+  forall ts idx l, In (idx, l) (registry ts) ->
+  exists h r, l = h :: r /\ In h ts /\ kt_index h = idx /\
+              forall x, In x ts -> kt_index x = idx -> kt_seq x <= kt_seq h.
+Proof. exact active_key_table. Qed.
+Print Assumptions C17_active_key_table.
+
+(* C11 (repaired code): whatever the object tables contain — entries pointing at themselves, at
+   earlier tables, anywhere — the loop of HyperVFile.__init__ ends, every offset is loaded at most
+   once, and the number of object tables is bounded by the number of loadable offsets.  The three
+   loaders are arbitrary functions. *)
+Theorem C11_hyperv_worklist_terminates :
+  forall (ld_otab : Z -> res (list oentry)) (ld_ktab : Z -> Z -> res ktable) (ld_rlog : Z -> res unit)
+         (U : list Z),
+  (forall o t, ld_otab o = Ok t -> In o U) ->
+  (forall o s, ld_ktab o s <> Fuel) -> (forall o, ld_rlog o <> Fuel) -> (forall o, ld_otab o <> Fuel) ->
+  forall k start, (length U < 2 ^ k)%nat ->
+  run_worklist ld_otab ld_ktab ld_rlog k start <> Fuel /\
+  forall st, run_worklist ld_otab ld_ktab ld_rlog k start = Ok st ->
+             NoDup (s_visited st) /\ (length (s_visited st) <= length U)%nat.
+Proof. exact run_worklist_terminates. Qed.
+Print Assumptions C11_hyperv_worklist_terminates.
+
+(* ---------- non-vacuity ---------- *)
+(* configuration/{version = 2304, name = "A", sub/{flag = true}} with entries spread over tables 1, 2
+   and 7, stored in an order in which children precede parents, plus a free entry *)
+(* ex_forest, ex_tables (with the free entry ex_free) are defined at the end of Proofs/HyperV.v *)
+Example C17_nonvacuous :
+  tables_wf ex_tables /\ Permutation (live_entries ex_tables) (flat_forest root_id ex_forest) /\
+  NoDup (root_id :: flat_map aids ex_forest) /\ forest_keys_unique ex_forest /\
+  link ex_tables = Ok (Node [([99], Node [([118], Leaf (VInt 2304)); ([115], Node [([102], Leaf (VBool true))]);
+                                         ([110], Leaf (VString [65]))])]).
+Proof. exact ex_nonvacuous. Qed.
+
+(* a stored string entry and a stored negative integer, decoded from their bytes *)
+Example C17_entry_example :
+  let e := {| se_type := 6 + 256 * 2; se_pidx := 1; se_poff := 10; se_ck := 7; se_ins := 3; se_key := [107];
+              se_body := enc_inline (VString [72; 105]) ++ [255; 255] |} in
+  parse_ktab (enc_ktable 5 9 0 [e] []) (10 + se_size e) = Ok {| kt_index := 5; kt_seq := 9; kt_entries := place 10 [e] |} /\
+  e_value {| fl_size := 0; fl_chunks := [] |} [] (rentry_of 10 e) = Ok (VString [72; 105]) /\
+  stored_as {| fl_size := 0; fl_chunks := [] |} [] (rentry_of 10 e) (VString [72; 105]).
+Proof. exact ex_entry. Qed.
